@@ -90,6 +90,58 @@ var ceFields = map[string]fieldSpec{
 	"cores": {"cores", "[]Core"}, "Time": {"time", "Time"}, "Entry": {"entry", "Entry"}, "#ev": {"ev", "[]Event"},
 }
 
+// AddCore / After / Should: a nil receiver is replaced by a fresh entry from the pool (getCheckedEntry = Get + reset)
+func ceAddFunc(name string, extra map[string]shim) transFunc {
+	return transFunc{file: "zapcore/entry.go", recv: "CheckedEntry", name: name, lean: name,
+		fields: map[string]fieldSpec{"dirty": {"dirty", "bool"}, "ErrorOutput": {"eo", "opt:WriteSyncer"}, "after": {"after", "opt:Hook"},
+			"cores": {"cores", "[]Core"}, "Entry": {"entry", "Entry"}},
+		recvNil: "isnil", recvAs: &fieldSpec{"self", "CE"},
+		types: map[string]string{"Entry": "Entry", "Core": "Core", "*CheckedEntry": "CE", "CheckWriteHook": "opt:Hook", "CheckWriteAction": "opt:Hook"},
+		calls: merge(map[string]shim{
+			"getCheckedEntry": {kind: "fresh", flds: []string{"dirty", "ErrorOutput", "after", "cores"}},
+		}, extra)}
+}
+
+// ---- the core algebra (zapcore/core.go, tee.go, hook.go, increase_level.go)
+//
+// A *CheckedEntry parameter is the nil-able record [cores]; entries are the record [Level]; sub-cores, encoders,
+// sinks and hook functions are opaque values handed to external intrinsics, which are recorded ("#ev") when the
+// call has an effect (Write, Sync, EncodeEntry, a hook function) and pure when it has none (Enabled, Check, AddCore).
+var coreTypes = map[string]string{"Entry": "struct:Entry", "*CheckedEntry": "ptr:struct:CE", "Field": "Field", "Core": "Core", "Level": "i8"}
+var coreStructs = map[string][]fieldSpec{"Entry": {{"Level", "i8"}}, "CE": {{"cores", "[]Core"}}}
+var coreConsts = map[string]string{"ErrorLevel": "i8:2"}
+var coreCalls = map[string]shim{
+	"Core.Write":            {kind: "extstmt", f: "Core.Write", res: []string{"error"}, trace: "#ev"},
+	"Core.Sync":             {kind: "extstmt", f: "Core.Sync", res: []string{"error"}, trace: "#ev"},
+	"Core.Check":            {kind: "ext", f: "Core.Check", res: []string{"ptr:struct:CE"}},
+	"Core.Enabled":          {kind: "ext", f: "Core.Enabled", res: []string{"bool"}},
+	"ptr:struct:CE.AddCore": {kind: "ext", f: "CE.AddCore", res: []string{"ptr:struct:CE"}}, // proved separately: TransCEAdd
+	"multierr.Append":       {kind: "builtin", f: "append...", res: []string{"error"}},
+}
+
+func coreFunc(file, recv, name string, fields map[string]fieldSpec, recvAs *fieldSpec, extra map[string]shim) transFunc {
+	fl := map[string]fieldSpec{"#ev": {"ev", "[]Event"}}
+	for k, v := range fields {
+		fl[k] = v
+	}
+	return transFunc{file: file, recv: recv, name: name, lean: recv + "_" + name, fields: fl, recvAs: recvAs,
+		types: coreTypes, structs: coreStructs, consts: coreConsts, calls: merge(coreCalls, extra)}
+}
+
+var ioCoreFields = map[string]fieldSpec{"enc": {"enc", "Encoder"}, "out": {"out", "WriteSyncer"}}
+var ioCoreCalls = map[string]shim{
+	"recv.Enabled":        {kind: "ext", f: "LevelEnabler.Enabled", res: []string{"bool"}}, // the embedded LevelEnabler
+	"Encoder.EncodeEntry": {kind: "extstmt", f: "Encoder.EncodeEntry", res: []string{"Buffer", "error"}, trace: "#ev"},
+	"WriteSyncer.Write":   {kind: "extstmt", f: "WriteSyncer.Write", res: []string{"int", "error"}, trace: "#ev"},
+	"WriteSyncer.Sync":    {kind: "extstmt", f: "WriteSyncer.Sync", res: []string{"error"}, trace: "#ev"},
+	"Buffer.Bytes":        {kind: "self", res: []string{"bytes"}},
+	"Buffer.Free":         {kind: "nop"},
+	"recv.Sync":           {kind: "fun", f: "ioCore_Sync", res: []string{"error"}},
+}
+var selfCore = &fieldSpec{"self", "Core"}
+var hookedFields = map[string]fieldSpec{"Core": {"core", "Core"}, "funcs": {"funcs", "[]HookFn"}}
+var lfcFields = map[string]fieldSpec{"core": {"core", "Core"}, "level": {"level", "LevelEnabler"}}
+
 var jsonEncFields = map[string]fieldSpec{
 	"buf":            {"buf", "Buffer"},
 	"spaced":         {"spaced", "bool"},
@@ -182,6 +234,27 @@ var transSpecs = []transSpec{
 				// decodeRune(x) is utf8.DecodeRuneInString / DecodeRune: (rune, size), modelled by Esc.validLen
 				"DecodeFn()": {kind: "extstmt", f: "decodeRune", res: []string{"i32", "int"}},
 			})},
+	}},
+	{table: "TransCores", funcs: []transFunc{
+		coreFunc("zapcore/core.go", "ioCore", "Sync", ioCoreFields, selfCore, ioCoreCalls),
+		coreFunc("zapcore/core.go", "ioCore", "Write", ioCoreFields, selfCore, ioCoreCalls),
+		coreFunc("zapcore/core.go", "ioCore", "Check", ioCoreFields, selfCore, ioCoreCalls),
+		coreFunc("zapcore/tee.go", "multiCore", "Write", nil, &fieldSpec{"mc", "[]Core"}, nil),
+		coreFunc("zapcore/tee.go", "multiCore", "Sync", nil, &fieldSpec{"mc", "[]Core"}, nil),
+		coreFunc("zapcore/tee.go", "multiCore", "Check", nil, &fieldSpec{"mc", "[]Core"}, nil),
+		coreFunc("zapcore/tee.go", "multiCore", "Enabled", nil, &fieldSpec{"mc", "[]Core"}, nil),
+		coreFunc("zapcore/hook.go", "hooked", "Check", hookedFields, selfCore, nil),
+		coreFunc("zapcore/hook.go", "hooked", "Write", hookedFields, selfCore, map[string]shim{
+			"HookFn()": {kind: "extstmt", f: "HookFn", res: []string{"error"}, trace: "#ev"}}),
+		coreFunc("zapcore/increase_level.go", "levelFilterCore", "Enabled", lfcFields, selfCore, map[string]shim{
+			"LevelEnabler.Enabled": {kind: "ext", f: "LevelEnabler.Enabled", res: []string{"bool"}}}),
+		coreFunc("zapcore/increase_level.go", "levelFilterCore", "Check", lfcFields, selfCore, map[string]shim{
+			"recv.Enabled": {kind: "fun", f: "levelFilterCore_Enabled", res: []string{"bool"}}}),
+	}},
+	{table: "TransCEAdd", funcs: []transFunc{
+		ceAddFunc("AddCore", nil),
+		ceAddFunc("After", nil),
+		ceAddFunc("Should", map[string]shim{"recv.After": {kind: "fun", f: "After", res: []string{"CE"}}}),
 	}},
 	{table: "TransCE", funcs: []transFunc{
 		{file: "zapcore/entry.go", recv: "CheckedEntry", name: "Write", lean: "Write",
